@@ -383,3 +383,12 @@ def rule5(ctx, prog, flows, effects):
             if t.callee and t.callee.short.split("::")[-1] in ("rev", "sort", "sort_by", "sort_by_key", "sorted", "sorted_by", "reverse", "dedup", "swap_remove"):
                 bad.append(t.callee.short)
         ctx.require(not bad, "R-C02-5", "read-order|" + q.short, "%s returns the per-pair list in stored order" % sfx.split("::")[-1], "%s reorders the per-pair list: %s" % (sfx, bad), loc_str(q.span))
+
+
+def run_once(ctx):
+    if ctx.tier != "thorough":
+        ctx.note("the compile-fail witnesses run in the thorough tier")
+        return
+    import witness
+
+    witness.run_witnesses(ctx, "R-C02-1w", ["C02"])
